@@ -52,6 +52,31 @@ def main(mode: str, seed: int) -> list:
             return SOLVERS[name]()
         except TypeError:
             return SOLVERS[name](types.SimpleNamespace(seed=seed))
+    if mode == "game":
+        # reveal / un-reveal / compute on the game object itself (C01, C17): a revealed coalition is known with lower = upper = value,
+        # an un-revealed one is unknown again, the bounds contain the true value
+        t = table()
+        for comp in ("superadditive", "superadditive_cached"):
+            g = IncompleteCooperativeGame(n, BOUNDS[comp])
+            ks = sorted(minimal)
+            g.set_known_values([float(t[k]) for k in ks], [Coalition(k) for k in ks])
+            pair, triple = explorable[0], [c for c in explorable if bin(c).count("1") == 3][0]
+            g.reveal_value(float(t[pair]), Coalition(pair))
+            g.compute_bounds()
+            g.reveal_value(float(t[triple]), Coalition(triple))
+            g.unreveal_value(Coalition(pair))
+            g.compute_bounds()
+            kn = [bool(x) for x in g.are_values_known()]
+            lo, hi = np.array(g.get_lower_bounds()), np.array(g.get_upper_bounds())
+            if not kn[triple] or lo[triple] != t[triple] or hi[triple] != t[triple]:
+                bad.append(f"{comp}: coalition {triple} was revealed with value {t[triple]} but is known={kn[triple]} with interval [{lo[triple]}, {hi[triple]}]")
+            if kn[pair]:
+                bad.append(f"{comp}: coalition {pair} was un-revealed but is still known")
+            if kn != [c in minimal or c == triple for c in range(N)]:
+                bad.append(f"{comp}: known coalitions are not minimal + the revealed one")
+            if not (np.all(lo <= t) and np.all(t <= hi)):
+                bad.append(f"{comp}: the bounds do not contain the true game")
+        return bad
     if mode == "trajectory":
         for solver in ("largest", "greedy"):
             t = table()
